@@ -73,7 +73,11 @@ struct ChannelSlot {
 
 impl ChannelSlot {
     fn new(mio_channel_bound: usize, channel_id: u16) -> (ChannelSlot, IoLoopHandle) {
-        let (mio_tx, mio_rx) = mio_sync_channel(mio_channel_bound);
+        // mio-extras signals readiness only after `send` has returned, and a rendezvous
+        // channel's `send` only returns once the message has been received, which the
+        // I/O thread never attempts without that signal: a bound of 0 would deadlock the
+        // first message. One slot is the closest working equivalent.
+        let (mio_tx, mio_rx) = mio_sync_channel(usize::max(mio_channel_bound, 1));
 
         // Bound of 2 is intentional here. The normal case for this channel is that it
         // will have at most 1 message in it (the response to a synchronous RPC call).
